@@ -97,9 +97,28 @@ object ParserUtils {
     return _jvm
 
 
+_lex_cache = {}          # filled by batch shards: text -> reply (one JVM round trip per 2000 texts)
+
+
 def lex(texts):
     from vlib.jvmslice import hexs
-    return engine().ask(['lex ' + hexs(t) for t in texts])
+    todo = [t for t in dict.fromkeys(texts) if t not in _lex_cache]
+    if not todo:
+        return [_lex_cache[t] for t in texts]
+    got = dict(zip(todo, engine().ask_chunked(['lex ' + hexs(t) for t in todo], chunk=2000)))
+    return [_lex_cache[t] if t in _lex_cache else got[t] for t in texts]
+
+
+def prefetch(names):
+    """Batch-lex escape_parsable(n) and escape_id(n) for many names (exhaustive shards)."""
+    if engine() is None:
+        return
+    from hail.utils.java import escape_parsable
+    from hail.utils.misc import escape_id
+    from vlib.jvmslice import hexs
+    texts = list(dict.fromkeys(t for n in names for t in (escape_parsable(n), escape_id(n))))
+    _lex_cache.clear()
+    _lex_cache.update(zip(texts, engine().ask_chunked(['lex ' + hexs(t) for t in texts], chunk=2000)))
 
 
 # ---------------------------------------------------------------------------------------------------------------
@@ -386,13 +405,14 @@ def run_shard(spec, seed, tier):
         for c in cps:
             ch = chr(c)
             batch += [ch, 'a' + ch, ch + 'a'] if kind == 'chars' and c < 0x3000 else [ch, 'a' + ch]
-        # one JVM round trip per 400 names: evaluate through the same check_case
+        prefetch(batch)      # the same check_case as everywhere else, but the lexer replies come from one batch
         for s in batch:
             case = {'s': s}
             nt, classes, fails = check_case(case, res)
             res.case(case, nt, classes)
             for sig, cl, msg in fails:
                 res.fail(sig, cl, msg, case)
+        _lex_cache.clear()
         return res
     from hypothesis import strategies as st
     from vlib.hyp import search
